@@ -65,7 +65,6 @@ specs["C03"] = dict(prefixes=["C03.", "C09.fits", "no-panic"], runs=[
   {"pkg": "root", "fn": "vfH_Policy_Add", "params": {"residents": 3}, "tiers": QT, "fallback": "cvc5-int,z3-new"},
   {"pkg": "root", "fn": "vfH_Policy_Add", "params": {"residents": 2, "symmetry": 0}, "tiers": QT, "fallback": "cvc5-int,z3-new"},
   {"pkg": "root", "fn": "vfH_Policy_Add", "params": {"residents": 4}, "tiers": T, "fallback": "cvc5-int,z3-new"},
-  {"pkg": "root", "fn": "vfH_Policy_Add", "params": {"residents": 6}, "tiers": T, "fallback": "cvc5-int,z3-new", "max_paths": 60000},
   {"pkg": "root", "fn": "vfH_Policy_Ops", "params": {"residents": 3}, "tiers": QT, "fallback": "cvc5-int,z3-new"},
   {"pkg": "root", "fn": "vfH_Policy_Add", "params": {"residents": 7, "unit": 1}, "tiers": QT, "fallback": "cvc5-int,z3-new"},
   burst(T, ops=2, menu=menu("set1", "set2", "del0"), maxcost=2, setbuf=2, sketch=1, pre=2),
@@ -77,7 +76,7 @@ specs["C03"] = dict(prefixes=["C03.", "C09.fits", "no-panic"], runs=[
   "Del / Update / Clear / UpdateMaxCost / Cap from the same arbitrary states",
   "bursts of 3..4 Set/Del calls with MaxCost 2 and arbitrary sketch contents, then Wait: RemainingCost() = MaxCost - sum of accounted costs and >= 0",
   "a newcomer that needs all of 7 unit-cost residents as victims (more than one sample of 5), one enumeration order of the sampling map, flat estimates"],
- outside=["more than 4 residents exhaustively (6 residents: bounded number of paths in the thorough tier)", "costs / MaxCost >= 2^40 (wrap-around of used + cost)"] + O_CACHE,
+ outside=["more than 4 residents with arbitrary costs (7 unit-cost residents in one scripted run)", "costs / MaxCost >= 2^40 (wrap-around of used + cost)"] + O_CACHE,
  assumptions=A_CACHE + ["tinyLFU.Estimate is summarised by an uninterpreted function est(key) in [0,16] in the policy step harnesses (the policy only reads estimates under its lock)"])
 
 specs["C04"] = dict(prefixes=["C04.", "no-panic", "no-deadlock"], runs=[
@@ -121,11 +120,10 @@ specs["C09"] = dict(prefixes=["C09.", "no-panic"], runs=[
   {"pkg": "root", "fn": "vfH_Policy_Add", "params": {"residents": 3}, "tiers": QT, "fallback": "cvc5-int,z3-new"},
   {"pkg": "root", "fn": "vfH_Policy_Add", "params": {"residents": 2, "symmetry": 0}, "tiers": QT, "fallback": "cvc5-int,z3-new"},
   {"pkg": "root", "fn": "vfH_Policy_Add", "params": {"residents": 4}, "tiers": T, "fallback": "cvc5-int,z3-new"},
-  {"pkg": "root", "fn": "vfH_Policy_Add", "params": {"residents": 6}, "tiers": T, "fallback": "cvc5-int,z3-new", "max_paths": 60000},
   {"pkg": "root", "fn": "vfH_Policy_Add", "params": {"residents": 2}, "tiers": T, "twin": True, "fallback": "cvc5-int,z3-new"},
   {"pkg": "root", "fn": "vfH_C09_Applier", "tiers": QT},
  ], witnesses=["vfH_Policy_Add:end", "vfH_C09_Applier:end"],
- bounds=["one defaultPolicy.Add(key, cost) from an arbitrary policy state with 2..4 residents (6 with a path budget), arbitrary costs / MaxCost in [0, 2^40], ALL frequency assignments (uninterpreted estimate function into [0,16]), every enumeration order of the sampling map",
+ bounds=["one defaultPolicy.Add(key, cost) from an arbitrary policy state with 2..4 residents, arbitrary costs / MaxCost in [0, 2^40], ALL frequency assignments (uninterpreted estimate function into [0,16]), every enumeration order of the sampling map",
   "with <= 5 residents the sample contains every resident, so 'victim is the least frequent candidate' is checked against all residents of that moment",
   "applier step on a new item with arbitrary sketch contents: rejection is reported through OnReject then OnExit, victims are removed from the store and reported through OnEvict"],
  outside=["more than 5 residents for the clauses that need the sample's contents", "the real count-min sketch as estimate source inside the policy step (covered separately by C18 and by the applier scenario)"],
@@ -207,7 +205,7 @@ specs["C08"] = dict(prefixes=["no-race", "no-panic", "no-deadlock", "terminates"
  ] + [
   # per-pair runs with symbolic key hashes (any shard relation, any sketch / doorkeeper position)
   {"pkg": "root", "fn": "vfH_C08_Pair", "params": {"a": a, "b": b, "samekey": sk, "preempt": 2}, "tiers": (QT if (a, b, sk) in QUICK_PAIRS else T)}
-  for (a, b, sk) in sorted(set([(a, b, 1) for a in KEYOPS for b in KEYOPS if a <= b] + [(0,1,1),(0,0,1),(1,5,1),(3,5,1),(1,7,1),(0,7,1),(1,8,1),(1,6,1),(0,3,0),(3,0,0)]))
+  for (a, b, sk) in sorted(set([(0,1,1),(1,5,1),(0,0,1),(1,1,1),(0,3,1),(1,3,1),(1,2,1),(1,7,1),(0,3,0)]))
  ] + [
   {"pkg": "root", "fn": "vfH_C13_IterStops", "tiers": QT},
   {"pkg": "root", "fn": "vfH_C08_Pair", "params": {"a": 0, "b": 1, "samekey": 1, "preempt": 3, "bufitems": 1, "yieldatomics": 1}, "tiers": T},
@@ -217,7 +215,7 @@ specs["C08"] = dict(prefixes=["no-race", "no-panic", "no-deadlock", "terminates"
   {"pkg": "root", "fn": "vfH_C08_Pair", "params": {"a": 0, "b": 1, "samekey": 1, "preempt": 2, "metrics": 0, "callbacks": 0, "bufitems": 64}, "tiers": T},
  ], witnesses=["vfH_C08_Pair:end"],
  bounds=["two client goroutines with one call each, for EVERY ordered pair of {Get, Set, SetWithTTL, Del, GetTTL, IterValues, Wait, Clear, UpdateMaxCost, MaxCost/RemainingCost, Metrics readers}, on the same key and on different keys (the first call on the resident key, the second on a key that is new), concrete key hashes in one shard, pre-emption bound 1 (thorough: 2, and different shards); pre-state with one resident, BufferItems=1 (every Get hands a batch to the policy goroutine), metrics and callbacks on; with the applier and policy goroutines",
-  "selected pairs with SYMBOLIC key hashes (quick: Get/Set, Get/Get, Set/IterValues; thorough: all pairs of the five keyed calls and pairs with Clear/Wait/UpdateMaxCost), pre-emption bound 2..3",
+  "selected pairs with SYMBOLIC key hashes (quick: Get/Set, Get/Get, Set/IterValues; thorough: also Get/Get, Set/Set, Get/Del, Set/Del, Set/SetWithTTL, Set/Clear), pre-emption bound 2..3",
   "happens-before (vector clock) race detection on every memory access of every explored interleaving: a race is reported if two accesses, one a write, are unordered in ANY explored schedule (one schedule per Mazurkiewicz trace suffices for a given pair of accesses)"],
  outside=["3..64 goroutines, more than one call per goroutine", "any notion of wall-clock progress: the claim is no deadlock / non-termination in any explored interleaving", "interleavings beyond the pre-emption bound"] + O_CACHE,
  assumptions=A_CACHE + ["sync.Pool may hand the same stripe to the next caller (LIFO)"])
@@ -248,9 +246,9 @@ specs["C10"] = dict(prefixes=["C10.", "no-panic"], runs=[
 specs["C11"] = dict(prefixes=["C11.", "no-panic"], runs=[
   {"pkg": "z", "fn": "vfH_C11_Buffer", "params": {"ops": 2, "maxlen": 8, "cap": 64, "menu": 11}, "tiers": Q},
   {"pkg": "z", "fn": "vfH_C11_Buffer", "params": {"ops": 1, "maxlen": 70, "cap": 64}, "tiers": QT},
-  {"pkg": "z", "fn": "vfH_C11_Buffer", "params": {"ops": 2, "maxlen": 40, "cap": 64}, "tiers": T},
-  {"pkg": "z", "fn": "vfH_C11_Buffer", "params": {"ops": 3, "maxlen": 40, "cap": 64, "menu": 7}, "tiers": T},
-  {"pkg": "z", "fn": "vfH_C11_Buffer", "params": {"ops": 3, "maxlen": 24, "cap": 64}, "tiers": T},
+  {"pkg": "z", "fn": "vfH_C11_Buffer", "params": {"ops": 2, "maxlen": 16, "cap": 64}, "tiers": T},
+  {"pkg": "z", "fn": "vfH_C11_Buffer", "params": {"ops": 3, "maxlen": 8, "cap": 64, "menu": 7}, "tiers": T},
+  {"pkg": "z", "fn": "vfH_C11_Buffer", "params": {"ops": 2, "maxlen": 8, "cap": 64}, "tiers": T},
   {"pkg": "z", "fn": "vfH_C11_Slices", "params": {"slices": 2, "maxlen": 2}, "tiers": Q},
   {"pkg": "z", "fn": "vfH_C11_Slices", "params": {"slices": 3, "maxlen": 3}, "tiers": T},
   {"pkg": "z", "fn": "vfH_C11_Slices", "params": {"slices": 4, "maxlen": 2}, "tiers": T},
@@ -258,9 +256,9 @@ specs["C11"] = dict(prefixes=["C11.", "no-panic"], runs=[
   {"pkg": "z", "fn": "vfH_C11_Grow", "tiers": QT, "fallback": "cvc5-int,z3-new"},
   {"pkg": "z", "fn": "vfH_C11_Sort", "params": {"slices": 3}, "tiers": QT},
   {"pkg": "z", "fn": "vfH_C11_Sort", "params": {"slices": 4}, "tiers": T},
-  {"pkg": "z", "fn": "vfH_C11_Buffer", "params": {"ops": 2, "maxlen": 40, "cap": 64}, "tiers": T, "twin": True},
+  {"pkg": "z", "fn": "vfH_C11_Buffer", "params": {"ops": 2, "maxlen": 8, "cap": 64}, "tiers": T, "twin": True},
  ], witnesses=["vfH_C11_Buffer:end", "vfH_C11_Slices:end", "vfH_C11_MaxSize:end", "vfH_C11_Sort:end", "vfH_C11_Grow:end"],
- bounds=["calloc-mode buffer of initial capacity 64: histories of 2 (quick) / 3 (thorough) operations from Write, WriteSlice, SliceAllocate, Allocate, AllocateOffset, Reset with SYMBOLIC lengths 0..40 (crossing the capacity and the doubling) and symbolic bytes: length and every byte of Bytes() equal the model at an arbitrary position",
+ bounds=["calloc-mode buffer of initial capacity 64: histories of 1 operation with SYMBOLIC length 0..70 (crossing the capacity and the doubling), of 2 operations with lengths 0..8 (quick) / 0..16 (thorough) and of 3 operations with lengths 0..8 (thorough; 2 operations with lengths 0..40 did not finish in 25 min and were reduced), from Write, WriteSlice, SliceAllocate, Allocate, AllocateOffset, Reset, and symbolic bytes: length and every byte of Bytes() equal the model at an arbitrary position",
   "3..4 length-prefixed slices of symbolic length 0..3 (including empty ones): SliceIterate / SliceOffsets / Slice yield the non-empty ones in order", "WithMaxSize with a symbolic limit and three initial capacities: never exceeded, refusal exactly when the write would exceed it", "SortSlice on 3..4 one-byte slices: ordered permutation"],
  outside=["mmap mode and the automatic switch to mmap (no file model was built: z/file.go, z/mmap_linux.go are not encoded)", "the sorter's multi-chunk merge (>= 1025 slices)", "sort.Slice is a contract stub (any ordering consistent with less)"],
  assumptions=A_Z + ["sort.Slice: contract stub (a permutation such that no adjacent pair is out of order)"])
@@ -315,9 +313,26 @@ specs["C16"] = dict(prefixes=["C16.", "no-panic"], runs=[
  assumptions=A_Z)
 
 def main():
+    # thorough-only runs that did not complete cleanly within the probe limit (tools/probe_thorough.py)
+    # are not registered: only bounds that were run clean are claimed; they are listed as outside
+    dropped = {}
+    dp = os.path.join(ROOT, "tools", "thorough_dropped.json")
+    if os.path.exists(dp):
+        dropped = json.load(open(dp))
     for pid, s in specs.items():
+        drop = set(dropped.get(pid, []))
+        if drop:
+            key = lambda r: r["fn"] + " " + json.dumps(r.get("params") or {}, sort_keys=True)
+            gone = [key(r) for r in s["runs"] if key(r) in drop and r["tiers"] == T]
+            s["runs"] = [r for r in s["runs"] if not (key(r) in drop and r["tiers"] == T)]
+            if gone:
+                s["outside"] = s["outside"] + ["deeper configurations that did not finish within 7 minutes on this machine when probed one by one and are therefore not registered: " + "; ".join(gone)]
         if any(r.get("fn") == "vfH_Burst" and r.get("params", {}).get("hashes") == 1 for r in s["runs"]):
             s["bounds"] = s["bounds"] + ["thorough-tier bursts of 3 calls use CONCRETE key hashes (three keys in shards 0/1: no data forks over shard, sketch and doorkeeper positions); bursts of 1..2 calls use symbolic hashes"]
+        # the thorough tier contains every quick run (several deeper counterparts were dropped above)
+        for r in s["runs"]:
+            if r["tiers"] == Q:
+                r["tiers"] = QT
         out = {"property": pid, "prefixes": s.get("prefixes", []), "runs": s["runs"], "witnesses": s.get("witnesses", []),
                "bounds": s["bounds"], "outside_bounds": s["outside"], "assumptions": s["assumptions"]}
         json.dump(out, open(os.path.join(ROOT, "checks", pid + ".json"), "w"), indent=1)
